@@ -18,6 +18,30 @@ BLOCK_LAYOUTS = [[(2,), (3,)], [(1,), (2, 2)], [(2, 3), (2,), (1,)], [(3,), (3,)
 EPS = 2.0**-6
 
 
+# functionals wrapped by the generic Loss: non-even ones (nonneg) expose the orientation of the translation
+LOSS_INNER = ["nonneg", "nonneg", "l1", "l2", "sql2", "hubersep", "hubernonsep", "l2ball", "zero"]
+
+
+def rescale_ops(rng):
+    """sequence of rescalings applied to a loss after construction (empty in ~35% of the cases)"""
+    if rng.random() < 0.35:
+        return []
+    ops = []
+    for _ in range(int(rng.integers(1, 4))):
+        k = pick(rng, ["mul", "mul", "div", "set"])
+        c = pick(rng, [2.0, 0.5, 4.0, 0.25, 3.0]) if k != "set" else pick(rng, [0.125, 0.75, 1.0, 2.0])
+        ops.append([k, c])
+    return ops
+
+
+def eff_scale_py(P):
+    """scale after the rescalings (generator-side copy, used only to place boundary values)"""
+    sc = float(P["scale"])
+    for k, c in P.get("rescale") or []:
+        sc = sc * c if k == "mul" else sc / c if k == "div" else float(c)
+    return sc
+
+
 def pick(rng, xs):
     return xs[int(rng.integers(0, len(xs)))]
 
@@ -77,8 +101,18 @@ def params_for(rng, fam, lay, boundary=False):
         elif k == "hyperplane":
             spec["b"] = pick(rng, [0.0, 1.0, -2.0])
         P["proj"] = spec
+    elif fam == "lossgen":
+        P["inner"] = pick(rng, LOSS_INNER)
+        if P["inner"] in ("hubersep", "hubernonsep"):
+            P["delta"] = 0.625 if boundary else pick(rng, DELTAS)
+        if P["inner"] == "l2ball":
+            P["radius"] = pick(rng, LAMS5)
+        P["scale"] = pick(rng, SCALES)
+        P["rescale"] = rescale_ops(rng)
+        P["A"] = "none" if lay.get("blocks") is not None else pick(rng, ["none", "identity"])
     elif fam in ("sql2loss", "sql2abs", "sql2sqabs"):
         P["scale"] = pick(rng, SCALES)
+        P["rescale"] = rescale_ops(rng)
         if fam == "sql2loss":
             P["A"] = pick(rng, ["none", "identity", "diagonal", "diagonal"])
             if lay.get("blocks") is not None and P["A"] == "identity":
@@ -91,6 +125,9 @@ def params_for(rng, fam, lay, boundary=False):
 def fill_aux(rng, case, boundary=False):
     """y, w, a for the losses"""
     fam = case["fam"]
+    if fam == "lossgen":
+        case["y"] = dy(rng, case_size(case), 2.0).tolist()
+        return
     if fam not in ("sql2loss", "sql2abs", "sql2sqabs"):
         return
     n = case_size(case)
@@ -155,7 +192,7 @@ def boundary(rng, fam):
     sgn = lambda: 1.0 if rng.random() < 0.5 else -1.0  # noqa: E731
     mode = pick(rng, ["zero", "on", "in", "out", "mixed"])
     case["bmode"] = mode
-    if fam in ("l0", "l1", "hubersep", "sql2abs", "sql2sqabs", "nonneg", "zero", "sql2", "sql2loss"):
+    if fam in ("l0", "l1", "hubersep", "sql2abs", "sql2sqabs", "nonneg", "zero", "sql2", "sql2loss", "lossgen"):
         tau = lam
         if fam == "hubersep":
             lam = pick(rng, [1.0, 3.0])
@@ -263,7 +300,7 @@ def boundary(rng, fam):
     fill_aux(rng, case, boundary=True)
     if fam == "sql2sqabs" and case.get("w") is not None:
         # alpha*y exactly 1, below, above at entries where v = 0 (root selection of the cubic)
-        sc = case["params"]["scale"]
+        sc = eff_scale_py(case["params"])
         w = np.asarray(case["w"])
         y = np.asarray(case["y"])
         for i in range(n):
@@ -271,5 +308,9 @@ def boundary(rng, fam):
             if a > 0 and rng.random() < 0.5:
                 y[i] = pick(rng, [1.0, 0.5, 2.0, 0.0]) / a
         case["y"] = y.tolist()
+    if fam == "lossgen":
+        # thresholds of the wrapped prox sit at |v - y| = scale_eff * lam
+        es = eff_scale_py(case["params"])
+        case["v"] = (np.asarray(case["y"]) + es * np.asarray(case["v"])).tolist()
     case["stream"] = "boundary"
     return case
